@@ -70,7 +70,7 @@ CHECKS.update({
     "C16": tv("directory snapshots around the real cmd/cogen on generated package layouts, then go build / go test / go vet -tags co, then a second run",
               "Layouts with names containing an earlier _co, test files, plain siblings, API-less co files, blank imports, sub-packages, stale <dir>_tmp.", "§6 C16"),
 })
-CHECKS["C18"]["technique"] += "; compiled generators with panicking atoms vs reference rendering"
+CHECKS["C18"]["technique"] += "; compiled generators with panicking atoms vs reference rendering; C18_compiled_panic_locality_partial: end to end (rewriter model + machine model), a panic of the source coroutine after k deliveries in user world u is the panic of the consumer loop over the machine's generator object after k deliveries in world u (fragment and side conditions of C01)"
 
 C_NOTE = ("Trusted: the hand-written Coq models of the rewriter (Rewrite.v) and of the source/target semantics (Sem.v), tied to /repo on every run by "
           "(a) the structural correspondence (abstract tree of the real rewriter's unoptimised output = Rewrite.rewrite, on every generated program) and "
